@@ -796,7 +796,7 @@ func c18R9(c *Ctx) {
 		case *ast.AssignStmt:
 			if len(t.Rhs) == 1 && len(t.Lhs) >= 1 {
 				if call, ok := ast.Unparen(t.Rhs[0]).(*ast.CallExpr); ok {
-					if f := Callee(info, call); f != nil && f.Name() == "matchOnePodNetworking" {
+					if f := Callee(info, call); f != nil && fnName(f) == "matchOnePodNetworking" {
 						matched = exprString(t.Lhs[0])
 					}
 				}
